@@ -396,6 +396,9 @@ func checkC08(c *Ctx) {
 				r.Shuffle(len(names), func(i, j int) { names[i], names[j] = names[j], names[i] })
 				cache.InjectDevices(genOCI(r), names...)
 				cache.InjectDevices(nil, names...)
+				cache.InjectDevices(genOCI(r)) // nothing requested
+				cache.InjectDevices(genOCI(r), []string{}...)
+				cache.InjectDevices(nil)
 				for _, n := range names {
 					cache.GetDevice(n)
 				}
@@ -449,6 +452,14 @@ func checkC08(c *Ctx) {
 			}
 			call("cdi.AnnotationKey", func() { cdi.AnnotationKey(s1, s2) })
 			call("cdi.AnnotationValue", func() { cdi.AnnotationValue([]string{s1, s2, "a/b=c"}) })
+			call("empty device lists", func() {
+				cdi.AnnotationValue(nil)
+				cdi.AnnotationValue([]string{})
+				cdi.UpdateAnnotations(map[string]string{}, "vendor.com_gpu", "id0", nil)
+				cdi.UpdateAnnotations(nil, "vendor.com_gpu", "id0", []string{})
+				cdi.ParseAnnotations(nil)
+				cdi.ParseAnnotations(map[string]string{"cdi.k8s.io/x": ""})
+			})
 			call("cdi.UpdateAnnotations", func() { cdi.UpdateAnnotations(map[string]string{s1: s2}, s2, s1, []string{s1}) })
 			call("cdi.ParseAnnotations", func() {
 				cdi.ParseAnnotations(map[string]string{"cdi.k8s.io/" + s1: s2, s2: s1, "cdi.k8s.io/x": s1 + "," + s2})
